@@ -78,6 +78,11 @@ def gen(seed):
         up.append({'src': rng.choice(TARGETS), 'dst': rng.choice(TARGETS), 'fn': rng.choice(FUNCS),
                    'last': rng.random() < 0.5, 'data': [rng.randrange(256) for _ in range(ln)],
                    'header': rng.randrange(256)})
+    # several application threads send on the one link (CRTP traffic plus the application's own CPX packets)
+    nthreads = rng.choice([1, 1, 2, 3])
+    for u in up:
+        u['thread'] = rng.randrange(nthreads)
+        u['via'] = 'crtp' if mode == 'tcp' and rng.random() < 0.7 else 'cpx'
     return {'seed': seed, 'scenario': 'cpx-' + mode, 'knobs': knobs, 'mode': mode, 'ops': down, 'up': up,
             'chunks': None}
 
@@ -134,6 +139,27 @@ def execute(ctx):
             sock.feed(frame(p['src'], p['dst'], p['fn'], p['last'], p['version'], p['data']))
             ctx.obs('fed', p['fn'], len(p['data']))
 
+    def run_senders(ups, send_one):
+        groups = {}
+        for u in ups:
+            groups.setdefault(u.get('thread', 0), []).append(u)
+        if len(groups) <= 1:
+            for u in ups:
+                send_one(u)
+            return
+        ctx.probe('several threads send on one link')
+        ths = []
+        for ti in sorted(groups):
+            def body(mine=groups[ti]):
+                for u in mine:
+                    send_one(u)
+            t = P.SimThread(target=body, name='sender-%d' % ti)
+            t.daemon = True
+            t.start()
+            ths.append(t)
+        for t in ths:
+            t.join(30.0)
+
     def scenario():
         out = io.StringIO()
         with contextlib.redirect_stdout(out):
@@ -171,11 +197,12 @@ def execute(ctx):
                 feeder.daemon = True
                 feeder.start()
                 # uplink
-                for u in plan['up']:
+                def send_cpx(u):
                     pk = CPXPacket(function=CPXFunction(u['fn']), destination=CPXTarget(u['dst']),
                                    source=CPXTarget(u['src']), data=bytes(u['data']))
                     pk.lastPacket = u['last']
                     cpx.sendPacket(pk)
+                run_senders(plan['up'], send_cpx)
                 feeder.join(60.0)
                 for t in consumers:
                     t.join(30.0)
@@ -193,9 +220,15 @@ def execute(ctx):
                 feeder = P.SimThread(target=peer_feed, args=(sock,), name='peer')
                 feeder.daemon = True
                 feeder.start()
-                for u in plan['up']:
-                    pk = CRTPPacket(u['header'], list(u['data']))
-                    drv.send_packet(pk)
+                def send_any(u):
+                    if u.get('via', 'crtp') == 'crtp':
+                        drv.send_packet(CRTPPacket(u['header'], list(u['data'])))
+                    else:
+                        pk = CPXPacket(function=CPXFunction(u['fn']), destination=CPXTarget(u['dst']),
+                                       source=CPXTarget(u['src']), data=bytes(u['data']))
+                        pk.lastPacket = u['last']
+                        drv.cpx.sendPacket(pk)
+                run_senders(plan['up'], send_any)
                 want = sum(1 for p, ok in zip(down, legal) if ok and p['fn'] == 3 and len(p['data']) > 0)
                 t_end = sim.now + 30.0
                 while len(crtp_rx) < want and sim.now < t_end:
@@ -237,12 +270,42 @@ def execute(ctx):
         i += 2 + ln
     if i != len(sent):
         ctx.violation('1', 'uplink-stream-not-framed', 'trailing %d bytes do not form a frame' % (len(sent) - i))
+    def cpx_frame(u):
+        return bytes([((u['src'] & 7) << 3) | (u['dst'] & 7) | (0x40 if u['last'] else 0), u['fn'] & 0x3F]) + bytes(u['data'])
+
+    def crtp_frame(u):
+        return bytes([(3 << 3) | 1, 3]) + bytes([u['header'] | 0x0C]) + bytes(u['data'])
+
+    def merge_of(frames, per_thread):
+        """True if `frames` is an interleaving of the per-thread sequences (each thread's order preserved)."""
+        keys = sorted(per_thread)
+        seqs = [per_thread[k] for k in keys]
+        if len(frames) != sum(len(q) for q in seqs):
+            return False
+        seen = set()
+        stack = [tuple(0 for _ in seqs)]
+        while stack:
+            pos = stack.pop()
+            if pos in seen:
+                continue
+            seen.add(pos)
+            i = sum(pos)
+            if i == len(frames):
+                return True
+            for k, q in enumerate(seqs):
+                if pos[k] < len(q) and q[pos[k]] == frames[i]:
+                    stack.append(pos[:k] + (pos[k] + 1,) + pos[k + 1:])
+        return False
+
     if mode == 'cpx':
-        exp_up = [bytes([((u['src'] & 7) << 3) | (u['dst'] & 7) | (0x40 if u['last'] else 0), u['fn'] & 0x3F]) +
-                  bytes(u['data']) for u in plan['up']]
-        if frames != exp_up:
-            ctx.violation('1', 'uplink-encoding-differs', 'frames on the wire %r..., expected %r...'
-                          % ([f.hex() for f in frames[:3]], [f.hex() for f in exp_up[:3]]))
+        per = {}
+        for u in plan['up']:
+            per.setdefault(u.get('thread', 0), []).append(cpx_frame(u))
+        exp_up = [cpx_frame(u) for u in plan['up']]
+        if (len(per) <= 1 and frames != exp_up) or (len(per) > 1 and not merge_of(frames, per)):
+            ctx.violation('1', 'uplink-encoding-differs', 'frames on the wire %r..., expected %r...%s'
+                          % ([f.hex() for f in frames[:3]], [f.hex() for f in exp_up[:3]],
+                             ' (any interleaving of %d sender threads)' % len(per) if len(per) > 1 else ''))
         for fn in got:
             exp = [(p['src'], p['dst'], p['fn'], bool(p['last']), bytes(p['data']), len(p['data']))
                    for p, ok in zip(down, legal) if ok and p['fn'] == fn]
@@ -255,11 +318,16 @@ def execute(ctx):
             ctx.violation('3', 'packet-in-wrong-or-extra-queue', 'unconsumed packets per function queue: %r' % (left,))
     else:
         # first frame: the SYSTEM packet announcing the host, then the CRTP packets
-        exp_up = [bytes([(3 << 3) | 1, 1]) + bytes([0x21, 0x01])] + \
-                 [bytes([(3 << 3) | 1, 3]) + bytes([u['header'] | 0x0C]) + bytes(u['data']) for u in plan['up']]
-        if frames != exp_up:
-            ctx.violation('4', 'crtp-uplink-differs', 'frames on the wire %r..., expected %r...'
-                          % ([f.hex() for f in frames[:3]], [f.hex() for f in exp_up[:3]]))
+        hello = bytes([(3 << 3) | 1, 1]) + bytes([0x21, 0x01])
+        per = {}
+        for u in plan['up']:
+            per.setdefault(u.get('thread', 0), []).append(crtp_frame(u) if u.get('via', 'crtp') == 'crtp' else cpx_frame(u))
+        exp_up = [hello] + [crtp_frame(u) if u.get('via', 'crtp') == 'crtp' else cpx_frame(u) for u in plan['up']]
+        if (len(per) <= 1 and frames != exp_up) or \
+                (len(per) > 1 and not (frames[:1] == [hello] and merge_of(frames[1:], per))):
+            ctx.violation('4', 'crtp-uplink-differs', 'frames on the wire %r..., expected %r...%s'
+                          % ([f.hex() for f in frames[:3]], [f.hex() for f in exp_up[:3]],
+                             ' (any interleaving of %d sender threads)' % len(per) if len(per) > 1 else ''))
         exp = [(p['data'][0] | 0x0C, bytes(p['data'][1:])) for p, ok in zip(down, legal)
                if ok and p['fn'] == 3 and len(p['data']) > 0]
         if crtp_rx != exp:
